@@ -222,6 +222,9 @@ def generate(rng, tier):
             inp["p%d" % i] = gen_value(rng, t, pool, pos, 1, hostile_p)
         plan["fields"] = fields
         plan["input"] = inp
+        if api in ("func_gen", "func_agen") and rng.random() < 0.5:
+            plan["gen_send"] = pool.next()
+            pos.append(("leaf", plan["gen_send"]))
         # typed extras: Options(addition=Leaf) for data classes, **kwargs: Leaf for functions
         plan["extras"] = {}
         if rng.random() < 0.35:
@@ -460,10 +463,13 @@ def build_call(plan, env):
         params += ", **kwargs: Leaf"
     g["_has_raw"] = _has_raw
     mark = "    FLAGS.append('body')\n    if _has_raw(list(locals().values())):\n        FLAGS.append('raw_leaked')\n"
+    send = plan.get("gen_send") is not None and api in ("func_gen", "func_agen")
+    sent_mark = "    if _has_raw([got]):\n        FLAGS.append('raw_leaked')\n    yield 2\n"
     body = {"func_sync": "def f(%s):\n" + mark + "    return 1\n",
             "func_coro": "async def f(%s):\n" + mark + "    return 1\n",
-            "func_gen": "def f(%s):\n" + mark + "    yield 1\n",
-            "func_agen": "async def f(%s):\n" + mark + "    yield 1\n"}[api]
+            "func_gen": "def f(%s)" + (" -> Generator[int, Leaf, None]" if send else "") + ":\n" + mark + ("    got = yield 1\n" + sent_mark if send else "    yield 1\n"),
+            "func_agen": "async def f(%s)" + (" -> AsyncGenerator[int, Leaf]" if send else "") + ":\n" + mark + ("    got = yield 1\n" + sent_mark if send else "    yield 1\n")}[api]
+    g["Generator"], g["AsyncGenerator"], g["Leaf"] = typing.Generator, typing.AsyncGenerator, faults.Leaf
     exec(body % params, g)
     w = utype.parse(g["f"], options=opts, eager=plan["eager"], no_cache=True)
 
@@ -475,9 +481,18 @@ def build_call(plan, env):
         if api == "func_coro":
             return _drive(r)
         if api == "func_gen":
-            return next(r)
+            first = next(r)
+            if send:
+                # a value sent into the generator is converted before the body sees it
+                FLAGS.append("sending")
+                return r.send(faults.Raw(plan["gen_send"]))
+            return first
         if api == "func_agen":
-            return _drive(r.__anext__())
+            first = _drive(r.__anext__())
+            if send:
+                FLAGS.append("sending")
+                return _drive(r.asend(faults.Raw(plan["gen_send"])))
+            return first
         return r
     return call
 
@@ -514,7 +529,8 @@ def _attempt(plan, env, hostile, budget):
         out = ("hang", clock.last)
     except Exception as e:  # noqa
         out = ("raw", type(e).__name__, kernel.clean_text(e, 140))
-    return out, clock.steps, ("body" in FLAGS), ("raw_leaked" in FLAGS)
+    # (a rejected *sent* value is reported after the body has legitimately started)
+    return out, clock.steps, ("body" in FLAGS and "sending" not in FLAGS), ("raw_leaked" in FLAGS)
 
 
 def execute(plan):
